@@ -21,7 +21,9 @@ DIR_LOCATIONS = ["QUERY", "MUTATION", "SUBSCRIPTION", "FIELD", "FRAGMENT_DEFINIT
 
 # characters that matter for strings (see DESIGN C08): terminators of all kinds, quotes, backslash, blanks
 ADVERSARIAL = ['"', "\\", "\n", "\r", " ", "\t", "a", "b", "/", "\x0b", "\x0c", "\x1c", "\x1d", "\x1e", "\x85", "\u2028",
-               "\u2029", "\x00", "\x1f", "\x7f", "\x9f", "é", "\U0001f600", "#", ",", "{", "}", '"""', "\ufeff", "u", "n"]
+               "\u2029", "\x00", "\x1f", "\x7f", "\x9f", "é", "\U0001f600", "#", ",", "{", "}", '"""', "\ufeff", "u", "n",
+               # the edges of the code point classes the lexer and the printer distinguish
+               "\ud7ff", "\ue000", "\ue001", "\ufffd", "\uffff", "\U00010000", "\U0010ffff", "\x80", "\xa0", "\x1f", "\x20", "\x7e"]
 
 
 def name(rng, pool=NAMES):
